@@ -2,10 +2,10 @@
 # usage: try_seed.sh <seed-dir-name> <property>...   – applies the seeded patch to /repo, runs the quick checks, reverts
 seed=$1; shift
 cd /verif
-git -C /repo apply /verif/seeded/$seed/patch.diff || { echo "PATCH DOES NOT APPLY"; exit 9; }
+git -C ${VERIF_REPO:-/repo} apply /verif/seeded/$seed/patch.diff || { echo "PATCH DOES NOT APPLY"; exit 9; }
 for p in "$@"; do
   out=$(./check $p quick 2>&1); rc=$?
   echo "== seed=$seed check=$p exit=$rc"
   echo "$out" | grep -E "^(VIOLATION|INCONCLUSIVE|KNOWN|  harness)" | head -6 | cut -c1-260
 done
-git -C /repo checkout -- .
+git -C ${VERIF_REPO:-/repo} checkout -- .
